@@ -8,106 +8,6 @@ pub(crate) mod verif_e7 {
     use crate::encoding::{CompressionLevel, Matcher};
     use crate::verif_spec::vk;
 
-    pub(crate) const BLK: usize = 6;
-    pub(crate) const HIST: usize = 3 * BLK;
-
-    /// runs one block through the matcher and checks every reported sequence against the reconstruction; returns nothing, panics on violation
-    fn one_block(mg: &mut MatchGenerator, hist: &mut [u8; HIST], hist_len: &mut usize, data: &[u8], skip: bool, slots: usize) {
-        mg.add_data(data.to_vec(), SuffixStore::with_capacity(slots), |_d, _s| {});
-        assert!(mg.window_size <= mg.max_window_size, "E7: retained window exceeds the maximum window");
-        let retained_before = mg.window_size - data.len(); // bytes of earlier blocks still in the window
-        if skip {
-            mg.skip_matching();
-        } else {
-            let mut recon = [0u8; BLK];
-            let mut rlen = 0usize;
-            let max_w = mg.max_window_size;
-            let base = *hist_len;
-            let h: &[u8; HIST] = hist;
-            let mut rounds = 0;
-            while mg.next_sequence(|seq| {
-                let (lits, m) = match seq {
-                    Sequence::Literals { literals } => (literals, None),
-                    Sequence::Triple { literals, offset, match_len } => (literals, Some((offset, match_len))),
-                };
-                assert!(rlen + lits.len() <= BLK, "E7: literal runs overrun the block");
-                recon[rlen..rlen + lits.len()].copy_from_slice(lits);
-                rlen += lits.len();
-                if let Some((offset, match_len)) = m {
-                    assert!(match_len >= MIN_MATCH_LEN, "E7: reported match shorter than the minimum match length");
-                    assert!(offset >= 1 && offset <= max_w, "E7: match distance outside 1..=max_window_size");
-                    assert!(offset <= retained_before + rlen, "E7: match reaches before the data retained in the window");
-                    assert!(rlen + match_len <= BLK, "E7: match overruns the block");
-                    let mut k = 0;
-                    while k < match_len {
-                        // byte at distance `offset` before the current position, in (history ++ reconstruction so far)
-                        let p = base + rlen; // absolute position of the byte being produced
-                        let src = p - offset;
-                        let b = if src < base { h[src] } else { recon[src - base] };
-                        recon[rlen] = b;
-                        rlen += 1;
-                        k += 1;
-                    }
-                }
-            }) {
-                rounds += 1;
-                assert!(rounds <= BLK + 1, "E7: more sequences than bytes");
-            }
-            assert!(rlen == data.len(), "E7: literal runs and matches must tile the block exactly");
-            let i: usize = vk::any();
-            if i < rlen {
-                assert!(recon[i] == data[i], "E7: replaying the reported sequences must reproduce the block (a reported match is not a true match)");
-            }
-        }
-        hist[*hist_len..*hist_len + data.len()].copy_from_slice(data);
-        *hist_len += data.len();
-    }
-
-    fn any_block() -> ([u8; BLK], usize) {
-        let bits: u8 = vk::any();
-        let mut d = [0u8; BLK];
-        let mut i = 0;
-        while i < BLK { d[i] = (bits >> i) & 1; i += 1; } // alphabet {0, 1}: collisions and matches are frequent
-        // block lengths are concrete (symbolic lengths make every slice/iterator loop bound symbolic and exhaust CBMC)
-        (d, BLK)
-    }
-
-    /// two blocks, window of 2 blocks: matches across the block boundary, 8-slot suffix store (hash collisions)
-    #[cfg_attr(kani, kani::proof)]
-    #[cfg_attr(kani, kani::unwind(10))]
-    #[cfg_attr(killingspark_zstd_rs_verif, no_mangle)]
-    pub fn e7_two_blocks() {
-        let mut mg = MatchGenerator::new(2 * BLK);
-        let mut hist = [0u8; HIST];
-        let mut hl = 0usize;
-        let (d1, n1) = any_block();
-        let (d2, n2) = any_block();
-        one_block(&mut mg, &mut hist, &mut hl, &d1[..n1], vk::any(), 8);
-        one_block(&mut mg, &mut hist, &mut hl, &d2[..n2], false, 8);
-        core::mem::forget(mg);
-    }
-
-    /// three blocks with a window of ONE block and a bit: eviction happens; then reset and one more block
-    #[cfg_attr(kani, kani::proof)]
-    #[cfg_attr(kani, kani::unwind(10))]
-    #[cfg_attr(killingspark_zstd_rs_verif, no_mangle)]
-    pub fn e7_eviction_reset() {
-        let mut mg = MatchGenerator::new(BLK + 3);
-        let mut hist = [0u8; HIST];
-        let mut hl = 0usize;
-        let (d1, n1) = any_block();
-        let (d2, n2) = any_block();
-        one_block(&mut mg, &mut hist, &mut hl, &d1[..n1], true, 8);
-        one_block(&mut mg, &mut hist, &mut hl, &d2[..n2], false, 8);
-        mg.reset(|_d, _s| {});
-        assert!(mg.window.is_empty() && mg.window_size == 0 && mg.suffix_idx == 0 && mg.last_idx_in_sequence == 0, "E7: reset must forget the window");
-        let mut hist2 = [0u8; HIST];
-        let mut hl2 = 0usize;
-        let (d3, n3) = any_block();
-        one_block(&mut mg, &mut hist2, &mut hl2, &d3[..n3], false, 8);
-        core::mem::forget(mg);
-    }
-
     // ---- the three contracts unit E7V (Verus) assumes of code outside Verus' reach, checked here on the real functions ----
 
     fn any_store<const CAP: usize>() -> SuffixStore {
@@ -209,59 +109,8 @@ pub(crate) mod verif_e7 {
     #[cfg_attr(kani, kani::unwind(12))]
     #[cfg_attr(killingspark_zstd_rs_verif, no_mangle)]
     pub fn e7_add_suffixes_till_4() { add_suffixes_body::<4>(); }
-
-    /// MatchGeneratorDriver recycling (the precondition E7V.add_data states: a fresh or RECYCLED suffix store must be empty, and the
-    /// recycled data buffer has full length): three blocks through a one-slice window, so the third block gets the first block's
-    /// store back from the pool; then reset and one more block. Concrete data: a bounded execution.
-    #[cfg_attr(kani, kani::proof)]
-    #[cfg_attr(kani, kani::unwind(1030))]
-    #[cfg_attr(killingspark_zstd_rs_verif, no_mangle)]
-    pub fn e7_driver_recycling() {
-        let mut drv = MatchGeneratorDriver::new(8, 1);
-        let probe: usize = vk::any();
-        vk::assume(probe < 1024);
-        let mut round = 0u8;
-        while round < 4 {
-            if round == 3 { drv.reset(CompressionLevel::Fastest); }
-            let mut space = drv.get_next_space();
-            assert!(space.len() == 8, "E7: get_next_space must hand out a buffer of slice_size bytes (also a recycled one)");
-            let mut k = 0;
-            while k < 8 { space[k] = round.wrapping_mul(8).wrapping_add(k as u8); k += 1; }
-            drv.commit_space(space);
-            let last = drv.match_generator.window.last().unwrap();
-            assert!(last.suffixes.slots.len() >= 1024 && last.suffixes.slots[probe].is_none(), "E7: the suffix store given to a new block must be empty (recycled stores are cleared)");
-            assert!(drv.match_generator.window.len() == 1 && drv.match_generator.window_size == 8, "E7: one-slice window holds exactly the newest block");
-            drv.skip_matching();
-            round += 1;
-        }
-        assert!(drv.suffix_pool.len() + drv.match_generator.window.len() <= 3 && drv.vec_pool.len() <= 2, "E7: buffers are recycled, not leaked into ever-growing pools");
-        core::mem::forget(drv);
-    }
-
-    #[cfg(kani)]
-    #[kani::proof]
-    #[kani::unwind(10)]
-    fn e7_cover() {
-        let mut mg = MatchGenerator::new(2 * BLK);
-        let (d1, n1) = any_block();
-        let (d2, n2) = any_block();
-        mg.add_data(d1[..n1].to_vec(), SuffixStore::with_capacity(8), |_d, _s| {});
-        mg.skip_matching();
-        mg.add_data(d2[..n2].to_vec(), SuffixStore::with_capacity(8), |_d, _s| {});
-        let mut saw_match = false;
-        let mut big_offset = false;
-        while mg.next_sequence(|seq| {
-            if let Sequence::Triple { offset, .. } = seq { saw_match = true; if offset > BLK { big_offset = true; } }
-        }) {}
-        kani::cover!(saw_match, "a match is found");
-        kani::cover!(big_offset, "a match reaches into the previous block");
-        core::mem::forget(mg);
-    }
 }
 //@end
-//@harness e7_two_blocks kind=proof fn=MatchGenerator::next_sequence,MatchGenerator::add_data,MatchGenerator::reserve,MatchGenerator::skip_matching,MatchGenerator::add_suffixes_till,SuffixStore::insert,SuffixStore::get,SuffixStore::key props=C17,C15,C02 tier=thorough profile=rel bound="2 blocks of 6 bytes over the alphabet {0,1} (all 2^12 contents), window 12 bytes, 8-slot suffix store" witness=e7_two_blocks timeout=3000 heavy=yes
-//@harness e7_eviction_reset kind=proof fn=MatchGenerator::next_sequence,MatchGenerator::add_data,MatchGenerator::reserve,MatchGenerator::reset props=C17 tier=thorough profile=rel bound="blocks of 6 bytes over {0,1}, window 9 bytes (eviction), reset and reuse" witness=e7_eviction_reset timeout=3000 heavy=yes
-//@harness e7_cover kind=cover props=C17 tier=thorough profile=rel timeout=3000 heavy=yes
 //@harness e7_suffix_store_8 kind=proof fn=SuffixStore::get,SuffixStore::insert,SuffixStore::contains_key,SuffixStore::key props=C17 tier=quick profile=rel bound="8-slot store, two arbitrary slots pre-filled with arbitrary values, every 5-byte key and every index (loop-free: complete for this capacity)" witness=e7_suffix_store_8 timeout=900
 //@harness e7_common_prefix_3_10 kind=proof fn=MatchGenerator::common_prefix_len,MatchGenerator::mismatch_chunks props=C17 tier=quick profile=rel bound="operand lengths 3 and 10, all contents" witness=e7_common_prefix_3_10 timeout=900
 //@harness e7_common_prefix_10_9 kind=proof fn=MatchGenerator::common_prefix_len,MatchGenerator::mismatch_chunks props=C17 tier=quick profile=rel bound="operand lengths 10 and 9, all contents" witness=e7_common_prefix_10_9 timeout=900
@@ -269,4 +118,4 @@ pub(crate) mod verif_e7 {
 //@harness e7_common_prefix_0_4 kind=proof fn=MatchGenerator::common_prefix_len,MatchGenerator::mismatch_chunks props=C17 tier=quick profile=rel bound="operand lengths 0 and 4" witness=e7_common_prefix_0_4 timeout=900
 //@harness e7_add_suffixes_till_7 kind=proof fn=MatchGenerator::add_suffixes_till props=C17 tier=quick profile=rel bound="newest entry of 7 bytes (all contents), every 0 <= suffix_idx <= idx <= 7, 8-slot stores" witness=e7_add_suffixes_till_7 timeout=900
 //@harness e7_add_suffixes_till_4 kind=proof fn=MatchGenerator::add_suffixes_till props=C17 tier=quick profile=rel bound="newest entry of 4 bytes (shorter than a key: early return), 8-slot stores" witness=e7_add_suffixes_till_4 timeout=900
-//@harness e7_driver_recycling kind=proof fn=MatchGeneratorDriver::commit_space,MatchGeneratorDriver::get_next_space,MatchGeneratorDriver::reset,MatchGeneratorDriver::skip_matching props=C17 tier=thorough profile=rel bound="CONCRETE trace: 4 blocks of 8 bytes through a one-slice window with 1024-slot stores, reset before the 4th; probe slot symbolic" witness=e7_driver_recycling timeout=1800
+//@assume NOT RUN: the earlier bounded harnesses of the whole matcher (two blocks over a 2-letter alphabet, eviction + reset, MatchGeneratorDriver pool recycling) never completed in CBMC (out of memory / 30 min) and are not registered; kept in contracts/notes/. MatchGeneratorDriver's recycling closures (they must hand back CLEARED suffix stores, the precondition of E7V.add_data) are therefore not covered by any check
